@@ -118,14 +118,19 @@ def main(ck):
     beh_hist = {}
     built = {}
     import time
+    from concurrent.futures import ThreadPoolExecutor
     t_build = time.time()
-    for vname in sorted({p[0] for p in plans}):
+
+    def build_variant(vname):
         group = [p for p in plans if p[0] == vname]
         srcs = {p[1]: p[2] for p in group}
         d, info = tree.build_sources(srcs, subdir='b_' + vname, ext='.pyx', cplus=(vname == 'cpp'),
                                      directives={'legacy_implicit_noexcept': True} if vname == 'legacy' else None)
-        for p in group:
-            built[p[1]] = (d, info[p[1]], p)
+        return [(p[1], (d, info[p[1]], p)) for p in group]
+    vnames = sorted({p[0] for p in plans})
+    with ThreadPoolExecutor(len(vnames)) as ex:      # the variants are translated and built concurrently
+        for items in ex.map(build_variant, vnames):
+            built.update(items)
     ck.cov['build_wall_s'] = round(time.time() - t_build, 1)
     jobs = []
     for mname, (d, inf, p) in built.items():
@@ -149,8 +154,6 @@ def main(ck):
             f.write(gen.ref_module(meta, cpp=(vname == 'cpp')))
         cases = cases_for(meta, vname == 'cpp')
         jobs.append((mname, d, refpath, cases, meta, src, vname))
-
-    from concurrent.futures import ThreadPoolExecutor
 
     def runjob(j):
         mname, d, refpath, cases, meta, src, vname = j
